@@ -223,7 +223,46 @@ def fam_fix(tier, rng):
     return out
 
 
-FAMILIES = [fam_arr, fam_rec, fam_fix]
+def fam_redim(tier, rng):
+    """dynamic arrays: REDIM gives a fresh array with the new bounds and the SAME element type (also when the type
+    is not repeated); a SHARED dynamic array re-dimensioned inside a SUB is still the module's array"""
+    out = []
+    kinds = [("I", 0, False), ("$", 0, False), ("$", 3, False), ("D", 0, True)]
+    for t, fixn, ext in kinds:
+        for second in ("typed", "bare"):
+            for where in ("main", "sub-shared"):
+                b = B()
+
+                def dm(lo, hi, **kw):
+                    d = b.dim("AR", t, [dimspec(lo, hi)], fix=fixn)
+                    d["redim"] = True
+                    if ext:
+                        d["extended"] = True
+                    d.update(kw)
+                    return d
+
+                def el(i):
+                    e = idx("AR", t, [lit("I", i)])
+                    if fixn or ext:
+                        e["bare"] = True
+                    return e
+                val = lit("$", "abcdef") if t == "$" else lit("I", 7)
+                show = lambda: b.print(lit("$", "["), el(1), lit("$", "]"), lit("$", "["), el(2), lit("$", "]"), bound("l", "AR", t, num(1)), bound("u", "AR", t, num(1)))
+                first = dm(0, 2, shared=(where == "sub-shared"))
+                again = dm(1, 4, bare_redim=(second == "bare"))
+                if where == "main":
+                    main = [first, b.let(el(1), val), show(), again, show(), b.let(el(2), val), show()]
+                    subs = []
+                else:
+                    again["noshared"] = True
+                    again["shared"] = True          # the spec: it IS the shared array; the text does not say SHARED
+                    main = [first, b.let(el(1), val), show(), b.call("G", []), show(), b.let(el(2), val), show()]
+                    subs = [sub("G", [], [again, b.let(el(4), val), b.print(lit("$", "g"), bound("u", "AR", t, num(1)))])]
+                out.append({"fam": "redim:%s%d%s/%s/%s" % (t, fixn, "x" if ext else "", second, where), "prog": prog(main, subs)})
+    return out
+
+
+FAMILIES = [fam_arr, fam_rec, fam_fix, fam_redim]
 
 
 def cases(tier, seed):
